@@ -132,11 +132,19 @@ def terminate(sc):
         running = [pool.apply_async(targets.slow, (100 + i, 30)) for i in range(procs * 3)]
     elif situation == 'swallow':
         running = [pool.apply_async(targets.swallow_then_return, (100 + i, 20)) for i in range(procs)]
+    settled = situation == 'idle'
     if situation != 'idle':
-        time.sleep(0.5)
-        if not threads:
-            for _ in range(20):
+        # every worker must be inside a task before the call (a worker still idle may be leaving on
+        # its own when the signal arrives -- the F17 window); bounded wait, outcome recorded
+        t0 = time.time()
+        while time.time() - t0 < 10 * SCALE:
+            if not threads:
                 pool.handle_result_event()
+            if sum(1 for h in running if h._accepted) >= procs:
+                settled = True
+                break
+            time.sleep(0.02)
+        time.sleep(0.2)
     nworkers = len(seen)
     ok, secs = _bounded(pool.terminate, 15 * SCALE)
     ok2, _ = _bounded(pool.terminate, 5 * SCALE) if ok else (False, 0)
@@ -151,7 +159,7 @@ def terminate(sc):
     return {'kind': 'terminate', 'returned': ok, 'secs10': int(secs * 10), 'again_ok': ok2,
             'alive': _alive(seen), 'threads': _helper_threads(pool) if ok else -1,
             'intact': bool(intact), 'exit_callbacks': exits, 'nworkers_seen': nworkers,
-            'unresolved': 0, 'wrong': 0, 'refused': True}
+            'settled': settled, 'unresolved': 0, 'wrong': 0, 'refused': True}
 
 
 def gc_path():
@@ -169,7 +177,8 @@ def gc_path():
     return {'kind': 'terminate', 'returned': ok, 'secs10': int(secs * 10), 'again_ok': True,
             'alive': _alive(seen), 'threads': _helper_threads(keep) if ok else -1,
             'intact': h.ready() and h.get(0) == ('ok', 1),
-            'exit_callbacks': 2, 'nworkers_seen': 2, 'unresolved': 0, 'wrong': 0, 'refused': True}
+            'exit_callbacks': 2, 'nworkers_seen': 2, 'settled': True, 'unresolved': 0, 'wrong': 0,
+            'refused': True}
 
 
 def main():
